@@ -333,7 +333,12 @@ def run_case(case, ctx):
         copies = [np.array(v, copy=True) for v in es]
         try:
             res, err = dea3(*es)
+            res_then, err_then = res.copy(), err.copy()
             res_s, err_s = dea3(*es, symmetric=True)
+            dea3(*[v * 1.5 + 0.25 for v in es])
+            if res.tobytes() != res_then.tobytes() or err.tobytes() != err_then.tobytes():
+                ctx.reject('returned_arrays_changed_by_a_later_call', detail=dict(shape=list(shape)))
+                return
         except Exception as exc:
             ctx.reject('raised', observed=repr(exc), detail=dict(shape=list(shape)))
             return
